@@ -8,3 +8,10 @@ claim("C15", "dominators / control dependence with normalised relations on MIR; 
       "that libfunc signatures describe the generated code is assumed.",
       "trusted: rustc MIR + trait resolution, the fact dumper, rules/guards.py; assumes callee semantics of std/indexmap/itertools",
       "DESIGN.md section 4, C15")
+claim("C05", "gate rule on MIR (typestate of the `immovable` flag) + table agreement Rust string constants <-> corelib `.cairo` declarations",
+      "The statement-reordering pass may move or delete a call only if the callee is in the configured moveable set, and every "
+      "member of the default and minimal moveable sets is declared in the core library as an `extern fn ... nopanic` with no "
+      "implicit parameters, hence cannot panic, consume gas, touch a builtin or the system." + DECIDES +
+      " Semantic preservation by each optimisation rewrite (const folding, match optimisation, inlining, CSE, ...) is not decided.",
+      "trusted: rustc MIR, fact dumper, token-level scan of corelib extern declarations; assumes nopanic+no-implicits externs are side-effect free",
+      "DESIGN.md section 4, C05")
